@@ -193,6 +193,9 @@ def exc_out(exc, consumed, other):
     return ["raise", type(exc).__name__, str(exc)[:160], consumed, other]
 
 
+NON_STREAMS = (None, 3, "stream")       # objects that are not a StreamInterface, for refused assignments
+
+
 def run_case(case):
     PROXY.calls = []
     streams = [make_stream(s) for s in case["streams"]]
@@ -262,7 +265,7 @@ def run_case(case):
                              m, o, type(q).__name__])
             elif kind == "set":
                 _, i, sok, sid = op
-                stream = streams[sid] if sok else None
+                stream = streams[sid] if sok else NON_STREAMS[sid % len(NON_STREAMS)]
                 try:
                     inst[i].stream = stream
                 except Exception as exc:  # noqa
